@@ -168,6 +168,7 @@ func init() {
 			{"counter-numeric", "the restored image counter is a numeric maximum, not a lexicographic one", ruleCounterNumeric},
 			{"counter-monotonic", "the image counter only ever increases after Open", ruleCounterMonotonic("Document")},
 			{"size-precedence", "explicit width+height is decided before the aspect-ratio flag is consulted (dominance)", ruleSizePrecedence},
+			{"scale-before-trunc", "the requested millimetres are scaled to EMU before the float→integer conversion (no conversion applied to the raw size)", ruleScaleBeforeTrunc},
 			{"clone-alias", "a rendered document does not share relationship, content-type or part tables with its template", ruleCloneAliasFor("Relationships", "ContentTypes", "Document")},
 		},
 		Assumptions: commonAssumptions,
@@ -210,6 +211,7 @@ func init() {
 			{"must-update", "registrations on every path", ruleMustUpdate},
 			{"part-from-registry", "regenerated styles/numbering parts contain every registry entry (unfiltered range loop)", rulePartFromRegistry("stylesXML", "Numbering")},
 			{"clone-cover (registries)", "the per-document note and numbering registries are copied field by field when a document is derived from another (a flag or counter left behind desynchronises ids and parts)", filtered(ruleCloneDocument, "FootnoteManager", "NumberingManager")},
+			{"registry-key-fresh", "ids under which notes and numbering instances are registered come from a counter of the registry, never from its current size", ruleRegistryKeyFresh},
 		},
 		Assumptions: append([]string{"unbounded integer parts of a style-id pattern are expanded over heading/TOC levels 1..9"}, commonAssumptions...),
 	}
@@ -239,6 +241,7 @@ func init() {
 			{"toc-config-flow", "functions given a TOC configuration collect headings with that configuration's level on every path", ruleTOCConfigFlow},
 			{"counter-monotonic", "note and numbering id counters only ever increase", ruleCounterMonotonic("FootnoteManager", "NumberingManager")},
 			{"item-config-flow", "each list item's numbering comes from that item's own configuration on every path", ruleItemConfigFlow},
+			{"registry-key-fresh", "ids under which notes and numbering instances are registered come from a counter of the registry, never from its current size", ruleRegistryKeyFresh},
 			{"clone-cover (registries)", "the per-document note and numbering registries are copied field by field when a document is derived from another", filtered(ruleCloneDocument, "FootnoteManager", "NumberingManager")},
 		},
 		Assumptions: commonAssumptions,
